@@ -2,7 +2,7 @@
 """
 Robustness control for the template checks: write a copy of src/nunavut in which every template-local variable
 (`{% set x = ... %}` / `{% set x %}...{% endset %}` targets and `{% for x in ... %}` targets) of every built-in template
-is renamed consistently within its file (behaviour-preserving).  All checks must stay silent on the result.
+is renamed consistently within its file (behaviour-preserving); macro parameters are renamed as well where that is safe.  All checks must stay silent on the result.
 
 usage: alpha_rename_j2.py <dest-root> [--keep-tree]     (creates / updates <dest-root>/src/nunavut)
 """
@@ -27,8 +27,24 @@ def rename_template(env, N, source: str, name: str):
             targets.add(x.name)
     for m in ast.find_all(N.Macro):
         banned.add(m.name)
+    # macro parameters: renamed too, when every occurrence of the name in the file lies inside a macro that has it as a parameter
+    # or binds it locally (calls pass them by position; a name that is also passed as a keyword is banned below)
+    params = {a.name for m in ast.find_all(N.Macro) for a in m.args}
+    inside = {}
+    for m in ast.find_all(N.Macro):
+        bound = {a.name for a in m.args}
+        for n in m.find_all((N.Assign, N.AssignBlock, N.For)):
+            for x in [n.target] if isinstance(n.target, N.Name) else list(n.target.find_all(N.Name)):
+                bound.add(x.name)
+        for x in m.find_all(N.Name):
+            if x.name in bound:
+                inside[id(x)] = True
         for a in m.args:
-            banned.add(a.name)
+            inside[id(a)] = True
+    for x in ast.find_all(N.Name):
+        if x.name in params and id(x) not in inside:
+            banned.add(x.name)        # also used where no macro binds it
+    targets |= params
     for n in ast.find_all((N.Import, N.FromImport)):
         if isinstance(n, N.Import):
             banned.add(n.target)
